@@ -108,6 +108,9 @@ static void chars2(char *s) { s[0] = (char)nondet_u8(); s[1] = (char)nondet_u8()
 
 static void build_world(void)
 {
+#ifdef EL_ALLOC_FAIL
+	verif_alloc_may_fail = true; verif_cj_may_fail = true;   /* every allocation of the handler may fail, in any combination */
+#endif
 	INIT_LIST_HEAD(&verif_p.element_list); INIT_LIST_HEAD(&verif_q.element_list);
 	verif_p.send_message = stub_send; verif_q.send_message = stub_send;
 	verif_p.set_groups = nondet_u32(); verif_p.call_groups = nondet_u32(); verif_p.fetch_groups = nondet_u32();
